@@ -44,7 +44,7 @@ TECHNIQUE = ("Coq proof (totality incl. fuel, soundness, completeness of the eng
              "and valid_arg_found proved equal to the parser's counter and flag; round 5: value terminators of options and positionals; "
              "level correspondence) + extracted-model/implementation "
              "correspondence")
-LEVEL_TEXT = ("Machine-checked theorems (Coq 8.16, 82 pinned, all closed under the global context) about a function-by-function "
+LEVEL_TEXT = ("Machine-checked theorems (Coq 8.16, 83 pinned, all closed under the global context) about a function-by-function "
               "model of clap_complete::engine::complete: no panic site is reachable and no fuel runs out for any command, argv "
               "and index (build_full's fuel proved sufficient); in state ValueDone every option/subcommand candidate extends the "
               "word and names an option/alias/subcommand of the level reached by the shadow parse; under assert_app's uniqueness "
@@ -122,7 +122,10 @@ LEVEL_NOTE = ("Trusted: Coq kernel, extraction, OCaml driver, Rust harness, gene
               "(C18_long_alias_value_refuted).  Known finding C18-low-index-multiples (round 5, not repaired): the engine has no counterpart of the "
               "parser's low-index-multiples correction of the positional counter - behind `p a b sub` (files=[a], dst=b for the parser) it still "
               "fills <files> at `p` and offers an option the parser rejects as unknown (C18_low_index_multiples_refuted; corpus witness; the "
-              "premise pos_plain of the positional theorems is necessary).")
+              "premise pos_plain of the positional theorems is necessary).  Known findings C18-infer-subcommands / C18-infer-long-args (round 5, not "
+              "repaired): the engine knows neither setting - `p su --<TAB>` (su = sub for the parser) offers an option of `p`, `p --opti sub --<TAB>` "
+              "(--opti = --option taking `sub`) offers an option of `sub`, both rejected as unknown (C18_inferred_names_refuted; the oracle reads "
+              "inference instead of giving up on such trees).")
 
 U64_MAX = 2**64 - 1
 BAD_KINDS = {"UnknownArgument", "InvalidSubcommand", "PANIC"}
@@ -246,6 +249,29 @@ UNSAFE_CMD_FLAGS = {"allow_external_subcommands", "allow_missing_positional", "m
 # subcommand is that subcommand even while a multiple positional is being filled; the scan follows the level it is at.
 
 
+def find_sub_infer(node, name, infer):
+    """Command::infer_subcommands (the parser's possible_subcommand): a word that is a prefix of the name or of an alias of
+    exactly ONE subcommand names it; otherwise the exact name / alias.  -> (subcommand or None, was it found by inference)"""
+    if infer:
+        hits = [s for s in node["subs"] if s["name"].startswith(name) or any(x.startswith(name) for x in s["aa"])]
+        if len(hits) == 1:
+            exact = find_sub(node, name)
+            return hits[0], exact is not hits[0]
+    return find_sub(node, name), False
+
+
+def find_long_infer(node, name, infer):
+    """Command::infer_long_args (parse_long_arg): the exact key first; otherwise the ONE argument whose long name or one of
+    whose aliases the word is a prefix of.  -> (argument or None, was it found by inference)"""
+    a = find_long(node, name)
+    if a is not None or not infer:
+        return a, False
+    hits = [x for x in node["args"] if "positional" not in x["flags"] and any(l.startswith(name) for l in long_names(x))]
+    if len(hits) == 1:
+        return hits[0], True
+    return None, False
+
+
 def plain_terminator(a):
     """the argument's value terminator is a plain word (non-empty, no leading dash): only then does the scan read it"""
     t = a.get("term")
@@ -279,7 +305,8 @@ def option_values(level, a, words, j):
             return j
         if "term" in a["flags"] and w == a["term"]:
             return j + 1
-        if "subcommand_precedence_over_arg" in level["flags"] and find_sub(level, w) is not None:
+        if "subcommand_precedence_over_arg" in level["flags"] and \
+                any(x["name"].startswith(w) or any(y.startswith(w) for y in x["aa"]) for x in level["subs"]):
             return None
         count += 1
         j += 1
@@ -287,7 +314,7 @@ def option_values(level, a, words, j):
             return j
 
 
-def scan_prefix(root, words):
+def scan_prefix(root, words, settings=frozenset(), note=None):
     """Conventional scan of the words before the cursor, written from clap's documented command-line
     conventions (not from the engine): returns the level reached when a NEW ARGUMENT MAY START there,
     None when that cannot be decided soundly (pending value, `--`, anything unconventional)."""
@@ -299,6 +326,10 @@ def scan_prefix(root, words):
     weak = False        # ... has happened: only soundness is judged from then on
     seen_arg = False    # an option / flag / positional value of the CURRENT level was read (reset on descent)
     lowidx = False      # a word was read as a value of a multi-valued positional that is not the last positional of its level
+    infer_sub = "infer_subcommands" in settings      # global settings (propagated to every subcommand)
+    infer_long = "infer_long_args" in settings
+    if note is None:
+        note = {}
     while i < n:
         if level["flags"] & UNSAFE_CMD_FLAGS:
             return None
@@ -315,9 +346,11 @@ def scan_prefix(root, words):
         if w.startswith(b"--"):
             body = w[2:]
             name, eq, _val = body.partition(b"=")
-            a = find_long(level, name)
+            a, by_inference = find_long_infer(level, name, infer_long)
             if a is None or a["id"] in (b"help", b"version") or a["flags"] & {"reqeq", "positional"}:
                 return None
+            if by_inference:
+                note["inferred"] = "infer-long-args"
             if a["max"] == 0:
                 if eq:
                     return None
@@ -361,13 +394,15 @@ def scan_prefix(root, words):
             else:
                 i += 1
             continue
-        s = find_sub(level, w)
+        s, sub_by_inference = find_sub_infer(level, w, infer_sub)
         if s is not None and seen_arg and "args_conflicts_with_subcommands" in level["flags"]:
             # behind an argument of such a level the parser does not look for subcommands: the word is a plain word
             # (a positional value, or an error of the prefix line - then CLEAN_PREFIX drops the case); the level reached
             # is still this one (finding C18-args-conflict: the engine used to descend)
             s = None
         if s is not None and (not in_pos or "subcommand_precedence_over_arg" in level["flags"]):
+            if sub_by_inference:
+                note["inferred"] = "infer-subcommands"
             in_pos = False
             seen_arg = False
             level = s
@@ -428,6 +463,16 @@ def decode_case(case):
 
 
 def accept_oracle(case, impl):
+    """the oracle proper is accept_oracle_core; a complaint about a line on which the scan had to use clap's name INFERENCE
+    (infer_subcommands / infer_long_args - the engine knows neither) belongs to a recorded finding and is tagged"""
+    note = {}
+    r = accept_oracle_core(case, impl, note)
+    if isinstance(r, str) and note.get("inferred") and not r.startswith("the completion engine panicked"):
+        r += " [%s]" % note["inferred"]
+    return r
+
+
+def accept_oracle_core(case, impl, note):
     head, extra = split_result(impl)
     if head.startswith("PANIC") or head.startswith("ABORT"):
         return "the completion engine panicked: %s" % head[:300]
@@ -442,7 +487,7 @@ def accept_oracle(case, impl):
     if index >= len(argv):
         return "candidates returned for an index outside the argument vector"
     settings = spec_settings(sx[1], set())
-    if settings & {"infer_long_args", "infer_subcommands", "ignore_errors"}:
+    if settings & {"ignore_errors"}:
         return None
     if info["prefix"][0] not in CLEAN_PREFIX:
         return None
@@ -450,7 +495,7 @@ def accept_oracle(case, impl):
     start = 0 if "no_binary_name" in root["flags"] else 1
     if index < start:
         return "candidates returned for the binary name"
-    sc = scan_prefix(root, argv[start:index])
+    sc = scan_prefix(root, argv[start:index], settings, note)
     if sc is None:
         return None
     level, weak, nosubs, lowidx = sc
@@ -1119,4 +1164,8 @@ def classify_known(stream, case, impl, failure):
         return "C18-alias-without-primary"
     if isinstance(failure, str) and failure.endswith("[low-index-multiples]"):
         return "C18-low-index-multiples"
+    if isinstance(failure, str) and failure.endswith("[infer-subcommands]"):
+        return "C18-infer-subcommands"
+    if isinstance(failure, str) and failure.endswith("[infer-long-args]"):
+        return "C18-infer-long-args"
     return None
